@@ -15,6 +15,7 @@ LEVEL_TEXT = ("Bounded verification by symbolic execution of the real assembly a
 LEVEL_NOTE = ("Bounds: 1-2 modules + vector, record length n<=10 for the element with symbolic spans (others concrete), two "
               "levels. The GenBank write/read clause (Biopython's writer/parser and file I/O) cannot be executed symbolically and "
               "is outside the claim. Trusted: z3, CPython, symx models.")
+LEVEL_NOTE_EXTRA = 'a product whose id equals an input id or the default id; the same objects assembled twice; a superfluous module.'
 TECHNIQUE = "bounded symbolic execution of the real Python source (symx) with z3 on symbolic match spans; position-tag letters; replay on the real stack"
 EXPLANATION = "tiling and verbatim-origin of the generated source features are arithmetic statements over symbolic spans decided by z3"
 ASSUMPTIONS = [
